@@ -54,8 +54,7 @@ def val(v):
 
 
 def alive():
-    import gc
-    gc.collect()
+    # (CPython frees unreferenced objects at once; no cycle is involved, so no gc pass is needed)
     return len({id(w()) for w in TRACK["refs"] if w() is not None})
 
 
